@@ -65,6 +65,63 @@ Keeps(ref, cur) == \A p \in Nodes(ref) :
     [] e.k = "dir" -> At(cur, p).k = "dir"
     [] OTHER -> TRUE
 
+\* ---------------------------------------------------------------- the controller's status machine (state.proto Status)
+\* Every write of State.Status / LastError / SuccessfulCycles in controller.go is one StatusStep; the table is checked
+\* against the model's named status actions (Lifecycle.tla: every write goes through W, InvStatusMachine) and, closed
+\* under composition, against the change stream Manager.List delivers for real sessions (conformance counters only).
+RunningStatuses == {"watching", "scanning", "waiting-for-rescan", "reconciling", "staging-alpha", "staging-beta",
+                    "transitioning", "saving"}
+AllStatuses == {"disconnected", "connecting-alpha", "connecting-beta"} \cup HaltedStatuses \cup RunningStatuses
+StatusStep ==
+  {<<"disconnected", x>> : x \in {"disconnected", "connecting-alpha", "connecting-beta", "watching", "scanning"}}
+  \cup {<<"connecting-alpha", x>> : x \in {"connecting-alpha", "connecting-beta", "watching", "scanning", "disconnected"}}
+  \cup {<<"connecting-beta", x>> : x \in {"connecting-alpha", "connecting-beta", "watching", "scanning", "disconnected"}}
+  \cup {<<"watching", x>> : x \in {"scanning", "disconnected"}}
+  \cup {<<"scanning", x>> : x \in {"scanning", "waiting-for-rescan", "reconciling", "disconnected"}}
+  \cup {<<"waiting-for-rescan", x>> : x \in {"scanning", "disconnected"}}
+  \cup {<<"reconciling", x>> : x \in {"reconciling", "staging-alpha"} \cup HaltedStatuses}
+  \cup {<<"staging-alpha", x>> : x \in {"staging-alpha", "staging-beta", "disconnected"}}
+  \cup {<<"staging-beta", x>> : x \in {"staging-beta", "transitioning", "disconnected"}}
+  \cup {<<"transitioning", "saving">>}
+  \cup {<<"saving", x>> : x \in {"saving", "watching", "scanning", "disconnected"}}
+  \cup {<<x, "disconnected">> : x \in HaltedStatuses}
+\* LastError is non-empty only here: a terminal error survives the reset and the reconnect until synchronize() starts
+\* again; a try-again scan error lives until the next successful scan
+ErrStatuses == {"disconnected", "connecting-alpha", "connecting-beta", "scanning", "waiting-for-rescan"}
+\* abstract status: [st, err (LastError # ""), cyc (SuccessfulCycles)]
+Abs(st, err, cyc) == [st |-> st, err |-> err, cyc |-> cyc]
+StepOK(a, b) ==
+  /\ <<a.st, b.st>> \in StatusStep
+  /\ (b.err => b.st \in ErrStatuses)
+  /\ ((b.err /\ ~a.err) => b.st \in {"disconnected", "scanning"})
+  /\ \/ b.cyc = a.cyc
+     \/ (b.cyc = a.cyc + 1 /\ a.st = "saving" /\ b.st = "saving")
+     \/ (b.cyc = 0 /\ b.st = "disconnected")
+\* reflexive-transitive closure of StatusStep (the stream samples, it does not see every write)
+StatusReach ==
+  LET Next1(R) == R \cup UNION {{<<p[1], q[2]>> : q \in {y \in StatusStep : y[1] = p[2]}} : p \in R}
+      RECURSIVE Close(_)
+      Close(R) == IF Next1(R) = R THEN R ELSE Close(Next1(R))
+  IN Close({<<x, x>> : x \in AllStatuses} \cup StatusStep)
+\* two consecutive samples of the change stream
+StreamOK(a, b) ==
+  /\ a.st \in AllStatuses /\ b.st \in AllStatuses
+  /\ <<a.st, b.st>> \in StatusReach
+  /\ (b.err => b.st \in ErrStatuses)
+  /\ (b.cyc > a.cyc => <<a.st, "saving">> \in StatusReach)
+  /\ (b.cyc < a.cyc => <<a.st, "disconnected">> \in StatusReach)
+
+\* what the status must be while an endpoint operation is pending (the loop is inside that call)
+OtherSide(x) == IF x = "alpha" THEN "beta" ELSE "alpha"
+StatusOfOp(side, op) ==
+  CASE op = "Poll" -> "watching"
+    [] op = "Scan" -> "scanning"
+    [] op = "Stage" -> IF side = "alpha" THEN "staging-alpha" ELSE "staging-beta"
+    [] op = "Supply" -> IF side = "alpha" THEN "staging-beta" ELSE "staging-alpha"   \* alpha supplies what beta stages
+    [] op = "Transition" -> "transitioning"
+    [] OTHER -> "none"
+PinnedOps == {"Poll", "Scan", "Stage", "Supply", "Transition"}
+
 \* ---------------------------------------------------------------- monitor state
 NoRoots == [set |-> FALSE, alpha |-> Nil, beta |-> Nil]
 RootsOf(a, b) == [set |-> TRUE, alpha |-> a, beta |-> b]
@@ -93,7 +150,10 @@ MInit(mode) == [
   haltRoots |-> NoRoots, \* roots as walked when the halt was established
   lastRoots |-> NoRoots, \* most recent Roots observation not invalidated by an Edit or a Transition
   resetRef |-> NoRoots,  \* roots as walked when a reset was called
-  resetClean |-> FALSE   \* a reset returned ok and no scan has returned since: the archive must be empty
+  resetClean |-> FALSE,  \* a reset returned ok and no scan has returned since: the archive must be empty
+  pin |-> {},            \* endpoint operations called and not yet returned, as <<side, op>> (the loop is inside them)
+  mc |-> 0,              \* complete cycles since the endpoints were last connected (SuccessfulCycles)
+  rerr |-> FALSE         \* the last scan of this connection asked to be tried again (LastError is set)
 ]
 
 InflKinds(m, K) == {x \in m.infl : x.kind \in K}
@@ -150,7 +210,8 @@ MOp(m, o) ==
   LET isCall == o.phase = "call"
       c == m.cy
       newCycle == o.op = "Scan" /\ isCall /\ (c.ph # "scanning" \/ o.side \in c.called)
-      c2 == CASE newCycle ->
+      c2 == CASE o.op \in {"Connect", "Shutdown"} -> NoCycle     \* synchronize() is over / starts afresh
+              [] newCycle ->
                    [NoCycle EXCEPT !.ph = "scanning", !.called = {o.side}, !.anc = o.anc, !.pend = 1]
               [] o.op = "Scan" /\ isCall ->
                    [c EXCEPT !.called = @ \cup {o.side}, !.pend = @ + 1]
@@ -165,6 +226,7 @@ MOp(m, o) ==
                    [c EXCEPT !.pend = IF @ > 0 THEN @ - 1 ELSE 0,
                              !.ok = @ /\ o.res \in {"ok", "missing"},
                              !.trans = IF o.op = "Transition" /\ o.res \in {"ok", "missing"} THEN @ \cup {o.side} ELSE @]
+              [] o.op = "Poll" /\ isCall /\ CycleComplete(c, m.mode) -> [c EXCEPT !.ph = "done"]   \* counted once
               [] OTHER -> c
       endsOld == (newCycle \/ (o.op = "Poll" /\ isCall)) /\ CycleComplete(c, m.mode)
       estab == /\ c.ph = "scanning" /\ c2.ph = "scanned" /\ ~m.halted
@@ -183,7 +245,15 @@ MOp(m, o) ==
                !.lastRoots = IF transRet THEN NoRoots ELSE @,
                !.resetRef = IF transRet /\ InflKinds(m, {"reset"}) # {} THEN NoRoots ELSE @,
                !.resetClean = @ /\ ~(o.op = "Scan" /\ ~isCall),
-               !.resetDirty = @ \/ (o.op = "Scan" /\ ~isCall /\ InflKinds(m, {"reset"}) # {})]
+               !.resetDirty = @ \/ (o.op = "Scan" /\ ~isCall /\ InflKinds(m, {"reset"}) # {}),
+               !.pin = IF o.op \in {"Connect", "Shutdown"} THEN {}
+                       ELSE IF o.op \in PinnedOps THEN (IF isCall THEN @ \cup {<<o.side, o.op>>} ELSE @ \ {<<o.side, o.op>>})
+                       ELSE @,
+               !.mc = IF o.op = "Connect" THEN 0 ELSE IF endsOld THEN @ + 1 ELSE @,
+               !.rerr = IF o.op = "Connect" THEN FALSE
+                        ELSE IF o.op = "Scan" /\ ~isCall /\ o.res = "again" THEN TRUE
+                        ELSE IF c.ph = "scanning" /\ c2.ph = "scanned" THEN FALSE
+                        ELSE @]
 
 RECURSIVE MOps(_, _)
 MOps(m, q) == IF q = <<>> THEN m ELSE MOps(MOp(m, Head(q)), Tail(q))
@@ -205,6 +275,15 @@ C29_TerminatedGoneDisk(m, dk) == m.term => (~dk.sessionFile /\ dk.archive = Gone
 C29_TerminatedGoneList(m, st) == m.term => ~st.listed
 C29_ResetArchive(m, dk) == m.resetClean => dk.archive = Nil
 C29_ResetKeepsRoots(m, r) == m.resetRef.set => (Keeps(m.resetRef.alpha, r.alpha) /\ Keeps(m.resetRef.beta, r.beta))
+
+\* conformance (not a verdict of C29): while the loop is inside an endpoint operation, Manager.List shows exactly the
+\* status written before that call, LastError only after a try-again scan, and the cycles completed on this connection
+Pinned(m) == m.pin # {}
+ExpectedStatus(m) ==
+  LET x == CHOOSE y \in m.pin : TRUE
+      st == StatusOfOp(x[1], x[2])
+  IN Abs(st, st = "scanning" /\ m.rerr, m.mc)
+StatusAgrees(m, st) == Pinned(m) => Abs(st.status, st.lastError # "", st.cycles) = ExpectedStatus(m)
 
 C11_NoOpsWhileHalted(m) == ~m.haltBad
 C11_Status(m, st) == (m.halted /\ m.haltSettled /\ ~m.haltTouched /\ ~m.term) => st.status \in HaltedStatuses
